@@ -1,0 +1,69 @@
+// Copyright (c) 2026 10X Genomics, Inc. All rights reserved.
+
+//go:build verif
+
+package core
+
+import (
+	"fmt"
+	"os"
+	"path"
+	"sort"
+)
+
+// Exports for the external verification harness (property C10): the order in
+// which a node's forks are enumerated when they are expanded at run time from
+// the outputs of an upstream node.  This file is only compiled with
+// `-tags verif`.
+
+// VerifC10RuntimeForkIds writes outs[node fqid] as the _outs file of the first
+// fork of each named node (that is all Fork.resolveRef needs to consider the
+// node's outputs available), calls the real Node.expandForks(true) on the node
+// fqid and returns the ForkIdString of each of its forks in the order of
+// Node.forks, followed by the forks' directory names in the same order.
+func (self *Pipestance) VerifC10RuntimeForkIds(outs map[string][]byte,
+	fqid string) (ids []string, dirs []string, err error) {
+	defer func() {
+		if r := recover(); r != nil {
+			err = fmt.Errorf("panic: %v", r)
+		}
+	}()
+	all := self.getNode().top.allNodes
+	names := make([]string, 0, len(outs))
+	for k := range outs {
+		names = append(names, k)
+	}
+	sort.Strings(names)
+	for _, k := range names {
+		n := all[k]
+		if n == nil {
+			return nil, nil, fmt.Errorf("no node %s", k)
+		}
+		if len(n.forks) == 0 {
+			return nil, nil, fmt.Errorf("node %s has no fork", k)
+		}
+		f := n.forks[0]
+		if err := os.MkdirAll(f.metadata.path, 0o755); err != nil {
+			return nil, nil, err
+		}
+		f.metadata.uncache(OutsFile)
+		if err := os.WriteFile(path.Join(f.metadata.path, "_outs"),
+			outs[k], 0o644); err != nil {
+			return nil, nil, err
+		}
+	}
+	n := all[fqid]
+	if n == nil {
+		return nil, nil, fmt.Errorf("no node %s", fqid)
+	}
+	n.expandForks(true)
+	for _, f := range n.forks {
+		s, err := f.forkId.ForkIdString()
+		if err != nil {
+			s = "ERR(" + err.Error() + ")"
+		}
+		ids = append(ids, s)
+		dirs = append(dirs, f.id)
+	}
+	return ids, dirs, nil
+}
